@@ -21,6 +21,7 @@ func runC07(c *Ctx) {
 	L := c.L
 	c.checkNaNClamp()
 	c.checkMutationClasses("mutation-classes")
+	c.checkIupacPairTables("iupac-pair-tables")
 	c.checkDiagonalNotComputed("diagonal-not-computed")
 	c.checkSymmetricStores(c.fn("distance/dna", "", "DistMatrix"), "outmatrix")
 	c.checkSubstitutionBranch()
